@@ -221,6 +221,13 @@ func (proof *RangeProof) _computeRootHash() (rootHash []byte, treeEnd bool, err 
 	if len(proof.Leaves) == 0 {
 		return nil, false, errors.Wrap(ErrInvalidProof, "no leaves")
 	}
+	for _, path := range append([]PathToLeaf{proof.LeftPath}, proof.InnerNodes...) {
+		for _, pin := range path {
+			if len(pin.Left) > 0 && len(pin.Right) > 0 {
+				return nil, false, errors.Wrap(ErrInvalidProof, "inner node with both child hashes set")
+			}
+		}
+	}
 	if len(proof.InnerNodes)+1 != len(proof.Leaves) {
 		return nil, false, errors.Wrap(ErrInvalidProof, "InnerNodes vs Leaves length mismatch, leaves should be 1 more.")
 	}
